@@ -47,7 +47,10 @@ func (i *interpreter) callIntrinsic(fr *frame, fn *ssa.Function, args []value) (
 	}
 	// package initialisers of dependencies are never run
 	if fn.Name() == "init" && fn.Synthetic != "" {
-		return nil, true
+		if fn != i.forceInit {
+			return nil, true
+		}
+		i.forceInit = nil
 	}
 	if opt, ok := genericRegoOption(fn); ok {
 		i.intrSeen["stub:"+name] = true
@@ -495,6 +498,7 @@ func registerIntrinsics(e *Engine) {
 		return out
 	}
 	registerEnvStubs(e)
+	registerJSONCodec(e)
 }
 
 func strLess(ps *pathState, a, b value) bool {
@@ -669,7 +673,22 @@ func (i *interpreter) format(fr *frame, f value, args []value) value {
 			parts = append(parts, "%")
 			continue
 		}
-		// flags/width are not used by the repository's format strings
+		// %0Nx / %0NX / %0Nd: zero-padded fixed width integers
+		if verb == '0' {
+			j := k
+			width := 0
+			for j < len(format) && format[j] >= '0' && format[j] <= '9' {
+				width = width*10 + int(format[j]-'0')
+				j++
+			}
+			if j < len(format) && width > 0 && strings.IndexByte("xXd", format[j]) >= 0 && argi < len(args) {
+				parts = append(parts, i.formatPadded(format[j], width, args[argi]))
+				argi++
+				k = j + 1
+				continue
+			}
+			panic(unsupported{"format flags " + format[k-2:]})
+		}
 		if verb == 'w' {
 			verb = 'v'
 		}
@@ -768,6 +787,78 @@ func (i *interpreter) formatOne(fr *frame, verb byte, arg value) value {
 }
 
 var _ = sort.Strings
+
+// formatPadded renders %0<width>x / X / d of an integer operand. A symbolic operand of at most
+// 4*width bits is rendered digit by digit as symbolic characters (hexadecimal only).
+func (i *interpreter) formatPadded(verb byte, width int, arg value) value {
+	v := arg
+	if itf, ok := arg.(iface); ok {
+		v = itf.v
+	}
+	if x, ok := v.(sym); ok && verb != 'd' && x.t.Width <= 4*width {
+		letter := uint64('a')
+		if verb == 'X' {
+			letter = 'A'
+		}
+		out := make([]*smt.Term, width)
+		for d := 0; d < width; d++ {
+			lo := 4 * (width - 1 - d)
+			if lo >= x.t.Width {
+				out[d] = smt.BV('0', 8)
+				continue
+			}
+			hi := lo + 3
+			if hi >= x.t.Width {
+				hi = x.t.Width - 1
+			}
+			nib := smt.Extract(x.t, hi, lo)
+			if nib.Width < 8 {
+				nib = smt.Zext(nib, 8)
+			}
+			out[d] = smt.Ite(smt.BvCmp(smt.OpBvUlt, nib, smt.BV(10, 8)), smt.BvBin(smt.OpBvAdd, nib, smt.BV('0', 8)), smt.BvBin(smt.OpBvAdd, nib, smt.BV(letter-10, 8)))
+		}
+		return normStr(i.ps, out)
+	}
+	var n uint64
+	neg := false
+	switch x := v.(type) {
+	case sym:
+		n = x.concretize()
+		if kindSigned(x.k) {
+			if sv := smt.BV(n, kindWidth(x.k)).Signed(); sv < 0 {
+				neg, n = true, uint64(-sv)
+			}
+		}
+	case int, int8, int16, int32, int64:
+		if sv := asInt64(x); sv < 0 {
+			neg, n = true, uint64(-sv)
+		} else {
+			n = uint64(sv)
+		}
+	case uint, uint8, uint16, uint32, uint64, uintptr:
+		n = asUint64(x)
+	default:
+		panic(unsupported{fmt.Sprintf("zero-padded format of %T", v)})
+	}
+	base := 16
+	if verb == 'd' {
+		base = 10
+	}
+	d := strconv.FormatUint(n, base)
+	if verb == 'X' {
+		d = strings.ToUpper(d)
+	}
+	if neg {
+		width--
+	}
+	for len(d) < width {
+		d = "0" + d
+	}
+	if neg {
+		d = "-" + d
+	}
+	return d
+}
 
 func opaquePkg(fn *ssa.Function) bool {
 	p := fn.Pkg
